@@ -393,6 +393,14 @@ RULES = {
     "mutants": "corpus fonts x one byte mutation (bit flip biased to layout tables, truncation, 16-bit field +-1 / extreme value, "
                "table-directory splice, multi-flip) x the font's own fixture text / degenerate text x random configuration; both "
                "builds; rejected = Face::from_slice refused the bytes",
+    "sweep-syllabic": "every script the compiled crate sends to the Indic / Khmer / Myanmar / Universal shaper (asked through the hooks "
+                      "segprops / scripttags / shaper: ~95 scripts) x generated fonts {each GSUB script tag that selects the shaper, no "
+                      "GSUB at all} x {with, without U+25CC} x {with, without space + joiner glyphs} (+ a font whose form features hold "
+                      "<C,virama> / <virama,C> ligatures and whose presentation features rewrite every glyph) x every code point of the "
+                      "script (+ the Common / Inherited characters the syllable machines know) first / last / alone / doubled / after a "
+                      "space / next to a consonant, virama, joiner, dotted circle, vowel sign, random character (22 templates) x a walk "
+                      "through all 64 subsets of BOT, EOT, PRESERVE / REMOVE default ignorables, DO_NOT_INSERT_DOTTED_CIRCLE, "
+                      "PRODUCE_UNSAFE_TO_CONCAT x directions l r t x cluster levels 0 1 2 x script given / guessed; both builds",
     "long": "all corpus fonts x long texts (1 / 64k / 300k x one letter, base + up to 70k marks, conjuncts of 127..2000 consonants, "
             "64k default ignorables, mixed runs); monitors: crash, abort, CPU time of the request (60 s release / 600 s checked; a case "
             "above the limit is re-run at half the length and counts as a hang unless t(n) <= 5 t(n/2)), len <= max(64n,16384)",
@@ -651,6 +659,18 @@ def sweep_lines(r, chunk, planes):
 
 
 
+def run_sweep_syllabic(ctx, judge, shim, r, per_case, max_cps):
+    """`sweep-syllabic` (added after the seeded change C01e): tools/syllabic.py::sweep_batches"""
+    import syllabic
+    import flagslib
+    bf = dict(flagslib.constants(shim)[1])
+    bits = [bf[n] for n in syllabic.SWEEP_FLAGS]
+    stat = {}
+    for lines in syllabic.sweep_batches(shim, r, per_case, max_cps, bits, rle, stat):
+        run_both(judge, "sweep-syllabic", lines, timeout=900)
+    ctx.cov["sweep_syllabic"] = stat
+
+
 def metric_lines(r, shim, ncases):
     """per-glyph metric mutants: shape each fixture once, then give ONE glyph that occurs in its output an extreme horizontal
     advance (0, 1, 0x7fff, 0x8000, 0xffff) — arithmetic on the advances of specific glyphs (stretching, justification, fallback
@@ -830,6 +850,7 @@ def run(ctx):
     run_both(j, "config", config_lines(ctx.rng("config"), ctx.budget(2128, 2128 * 4)), timeout=900)
     run_both(j, "mutants", mutant_lines(ctx.rng("mutants"), ctx.budget(120000, 1000000)), timeout=900)
     run_both(j, "sweep", sweep_lines(ctx.rng("sweep"), ctx.budget(256, 64), ctx.budget([0, 1, 14], [0, 1, 2, 3, 14, 15, 16])), timeout=900)
+    run_sweep_syllabic(ctx, j, shim, ctx.rng("sweep-syllabic"), ctx.budget(4, 32), ctx.budget(200, 6000))
     run_both(j, "gsub-random", gsub_random_lines(ctx.rng("gsubrnd"), ctx.budget(500, 6000)), timeout=900)
     run_both(j, "glyph-metric", metric_lines(ctx.rng("metric"), shim, ctx.budget(2128, 2128)), timeout=900)
     run_both(j, "table-fill", fill_lines(ctx.rng("fill"), ctx.budget(150, 467)), timeout=900)
@@ -844,6 +865,11 @@ def replay(ctx, rp):
         o = vlib.run_lines(shim, [rp["request"]], nproc=1)[0]
         print(o[:3000]); return 1
     if "build" in rp:
+        m = re.search(r"@(\S*/syllabic-fonts/\S+?\.ttf)@", rp["request"])
+        if m and not os.path.exists(m.group(1)):
+            # generated fonts of sweep-syllabic live in a cache directory: rebuild them (they depend on the crate only)
+            import syllabic
+            for _ in syllabic.sweep_batches(vlib.build_harness(), vlib.Rng(1, "replay"), 0, 1, [], rle, {}): pass
         exe = vlib.build_harness(rp["build"])
         o = vlib.run_lines(exe, [rp["request"]], nproc=1, timeout=1800)[0]
         print("build  :", rp["build"]); print("request:", rp["request"][:1500]); print("reply  :", o[:600])
